@@ -46,7 +46,11 @@ def _call(fn, x, p, inp):
         r = spectrum.minvar(x, p + 1, 1.0, 4 * p + 4); return [("PSD", r[0], 2), ("A", r[1], 0), ("reflection", r[2], 0)]
     if fn.startswith("eigen"):
         m = inp["method"]
-        r = spectrum.eigen(x, p + 1, NSIG=1, method=m, NFFT=4 * p + 4)
+        if inp.get("criteria"):
+            # order selection inside eigen: the selected subspace dimension must not depend on the amplitude
+            r = spectrum.eigen(x, p + 2, NSIG=None, method=m, NFFT=4 * p + 4, criteria=inp["criteria"])
+        else:
+            r = spectrum.eigen(x, p + 1, NSIG=1, method=m, NFFT=4 * p + 4)
         return [("pseudo-spectrum", r[0], 0 if m == "music" else 1), ("singular values", r[1], 1)]
     if fn == "speriodogram":
         return [("psd", spectrum.speriodogram(x, 2 * N, detrend=False, sampling=1.0, scale_by_freq=True, window="hann"), 2)]
@@ -82,7 +86,12 @@ def scaling(inp):
     sh = inp.get("shape", {})
     N, p = int(sh.get("N", 16)), int(sh.get("order", 3))
     c = C if cx else float(inp.get("c", 0.37))
-    for seed in (1, 2, 3):
+    grid = [(N, p, c, seed) for seed in (1, 2, 3)]
+    if str(inp.get("fn", "")).startswith("eigen") and inp.get("criteria"):
+        # a data-scale dependent order selection shows only where two candidate orders are close: more sizes and scales
+        grid += [(n_, p_, c_ * (np.exp(0.9j) if cx else 1.0), seed) for (n_, p_) in ((64, 10), (40, 6), (24, 4))
+                 for c_ in (40.0, 1000.0, 1e-3, 0.05) for seed in (1, 2)]
+    for (N, p, c, seed) in grid:
         x = _x(N, cx, seed)
         r1 = _call(inp["fn"], x, p, inp)
         try:
